@@ -26,7 +26,9 @@ RULE = ('histories over all DefaultHandler callbacks (write_keepalive on/off) wi
         'rotations, restart after any event, crash inside the last write at a generated (exhaustive tier: every) byte '
         'offset followed by restart, then further events and an audit of all files. Non-trivial = >= 1 rotation and >= 1 '
         'restart, or a torn write; distinct by history.')
-ASSUMPTIONS = ['torn-write model: a prefix of the bytes of the last append survives (append-only file, no reordering)',
+ASSUMPTIONS = ['update payloads are synthetic JSON-safe ones plus what yabgp itself decodes from one well-formed UPDATE per address '
+               'family (octet-string results only where stdlib json and simplejson both refuse them)',
+               'torn-write model: a prefix of the bytes of the last append survives (append-only file, no reordering)',
                'payloads are limited to types that stdlib json and simplejson serialise identically',
                'a restart closes the old file handle (the data was already flushed and fsynced by write_msg)']
 EXHAUSTIVE = {'quick': False, 'thorough': False}
@@ -68,6 +70,63 @@ PAYLOADS = [
     {'afi': 1, 'res': 0, 'safi': 1},
     'Connection was refused by other side: 111: Connection refused.',
 ]
+
+
+def _decoded_payloads():
+    """what the protocol layer really hands to update_received: yabgp's own decoding of one well-formed UPDATE per
+    address family.  Results holding octet strings are kept only when some of them are not valid UTF-8: those fail to
+    serialise under stdlib json (our stand-in) and under simplejson alike; valid-UTF-8 octet strings are left out
+    because simplejson would decode them while stdlib json refuses (no sound expectation from here)."""
+    from vlib import corpus
+    from yabgp.message.update import Update
+    from yabgp.common import constants as bc
+
+    def octet_strings(o):
+        if isinstance(o, bytes):
+            yield o
+        elif isinstance(o, dict):
+            for v in o.values():
+                for x in octet_strings(v):
+                    yield x
+        elif isinstance(o, (list, tuple)):
+            for v in o:
+                for x in octet_strings(v):
+                    yield x
+    out = []
+    for name, body in corpus.update_bodies():
+        d = Update.parse(1600000000.0, body, True)
+        if d.get('sub_error'):
+            continue
+        fam = None
+        for code in (14, 15):
+            if d['attr'].get(code):
+                fam = bc.AFI_SAFI_DICT.get(tuple(d['attr'][code]['afi_safi']))
+        payload = {'attr': d['attr'], 'nlri': d['nlri'], 'withdraw': d['withdraw'], 'afi_safi': fam or 'ipv4'}
+        bs = list(octet_strings(payload))
+        if bs:
+            fails_everywhere = False
+            for b in bs:
+                try:
+                    b.decode('utf-8')
+                except UnicodeDecodeError:
+                    fails_everywhere = True      # one undecodable octet string makes either library give up
+            if not fails_everywhere:
+                continue
+        out.append((name, payload))
+    return out
+
+
+DECODED = _decoded_payloads()
+
+
+def payload_for(kind, idx):
+    if kind in ('update_received', 'on_update_error'):
+        if idx >= 100:
+            return DECODED[(idx - 100) % len(DECODED)][1]
+        return PAYLOADS[idx % 4]
+    return PAYLOADS[idx % len(PAYLOADS)]
+
+
 EVENTS = ['update_received', 'on_update_error', 'keepalive_received', 'open_received', 'send_open', 'route_refresh_received',
           'notification_received', 'on_connection_lost', 'on_connection_failed', 'on_established']
 
@@ -239,13 +298,12 @@ def run_case(case):
             if run.h is None:
                 break
             if op[0] == 'ev':
-                run.event(EVENTS[op[1]], PAYLOADS[op[2] % len(PAYLOADS)] if EVENTS[op[1]] not in ('update_received', 'on_update_error')
-                          else PAYLOADS[op[2] % 4])
+                run.event(EVENTS[op[1]], payload_for(EVENTS[op[1]], op[2]))
             elif op[0] == 'restart':
                 run.restarts += 1
                 run.start()
             elif op[0] == 'torn':
-                span = run.event(EVENTS[op[1]], PAYLOADS[op[2] % 4] if EVENTS[op[1]] in ('update_received', 'on_update_error') else PAYLOADS[op[2] % len(PAYLOADS)])
+                span = run.event(EVENTS[op[1]], payload_for(EVENTS[op[1]], op[2]))
                 if span is not None:
                     run.tear(span, op[3])
                 run.restarts += 1
@@ -257,7 +315,8 @@ def run_case(case):
         run.cleanup()
 
 
-ev_op = st.tuples(st.just('ev'), st.sampled_from([0, 0, 0, 1, 2, 3, 4, 5, 6, 7, 8, 9]), st.integers(0, 7)).map(list)
+ev_op = st.tuples(st.just('ev'), st.sampled_from([0, 0, 0, 1, 2, 3, 4, 5, 6, 7, 8, 9]),
+                  st.one_of(st.integers(0, 7), st.integers(0, 7), st.integers(100, 100 + len(DECODED) - 1))).map(list)
 op = st.one_of(ev_op, ev_op, ev_op, st.just(['restart']),
                st.tuples(st.just('torn'), st.sampled_from([0, 0, 1, 3, 6, 7]), st.integers(0, 7), st.integers(0, 400)).map(list))
 case_strategy = st.fixed_dictionaries({'max_size': st.sampled_from([150, 400, 1000, 10 ** 9]), 'write_keepalive': st.booleans(),
